@@ -494,7 +494,9 @@ func installStdlib(m *Machine) {
 				return unknownCall(name, args), nil
 			}
 			for i, e := range elems {
-				b, err := m.truth(pos, m.equal(pos, e, args[1]), fmt.Sprintf("%d:%s#%d", pos, name, i))
+				// the i-th comparison is the equality it stands for: keyed like `elem == needle` written out
+				eq := m.equal(pos, e, args[1])
+				b, err := m.truth(pos, eq, fmt.Sprintf("%d:%s", pos, TermOf(eq)))
 				if err != nil {
 					return nil, err
 				}
@@ -668,6 +670,50 @@ func installStdlib(m *Machine) {
 				}
 			}
 			return nil, undecided(pos, "%s of values that are not concrete strings", name)
+		}
+	}
+	m.Ext["slices.Reverse"] = func(m *Machine, pos token.Pos, recv Value, args []Value) (Value, error) {
+		if len(args) == 1 {
+			switch l := args[0].(type) {
+			case *List:
+				for i, j := 0, len(l.Elems)-1; i < j; i, j = i+1, j-1 {
+					l.Elems[i], l.Elems[j] = l.Elems[j], l.Elems[i]
+				}
+				return NilV{}, nil
+			case NilV:
+				return NilV{}, nil
+			}
+		}
+		return nil, undecided(pos, "slices.Reverse of %s", Show(args[0]))
+	}
+	m.Ext["slices.Backward"] = func(m *Machine, pos token.Pos, recv Value, args []Value) (Value, error) {
+		if len(args) == 1 {
+			if elems, ok := listOf(args[0]); ok {
+				sq := &Seq{Two: true}
+				for i := len(elems) - 1; i >= 0; i-- {
+					sq.Keys = append(sq.Keys, int64(i))
+					sq.Elems = append(sq.Elems, elems[i])
+				}
+				return sq, nil
+			}
+		}
+		return unknownCall("slices.Backward", args), nil
+	}
+	m.Ext["slices.Concat"] = func(m *Machine, pos token.Pos, recv Value, args []Value) (Value, error) {
+		out := &List{}
+		for _, a := range args {
+			// variadic: the arguments arrive as they were written, or as one list of lists
+			elems, ok := listOf(a)
+			if !ok {
+				return unknownCall("slices.Concat", args), nil
+			}
+			out.Elems = append(out.Elems, elems...)
+		}
+		return out, nil
+	}
+	for _, name := range []string{"slices.Clip", "slices.Grow"} {
+		m.Ext[name] = func(m *Machine, pos token.Pos, recv Value, args []Value) (Value, error) {
+			return args[0], nil
 		}
 	}
 	m.Ext["slices.Clone"] = func(m *Machine, pos token.Pos, recv Value, args []Value) (Value, error) {
